@@ -7,14 +7,18 @@ from hypothesis import strategies as st
 from ..core import Verdict
 
 ID = "C20"
-RULE = ("Cases are operation histories (ParameterTable keyed/unkeyed vs dict/list model; RowCollector vs list-of-rows "
-        "model, list and array mode, with sort) drawn by Hypothesis as op lists, every (n<=40, ncols<=8, order, "
-        "list/dict) DataPlotGrid size enumerated completely plus random larger ones, and random lists of item lists "
-        "for DataCombination. After EVERY operation all public accessors are compared with the model. "
-        "Non-trivial: table history with a delete or overwrite followed by positional access; collector history with a "
-        "sort over >=3 rows or with ties in the sort column; grid with incomplete last row; combination of >=2 lists "
-        "Round 4: refused assignments (non-sequence values) must leave the table as it was; attribute access of absent keys; abandoned and interleaved enumerations. "
-        "with >=2 items each. Distinct = distinct canonical JSON of the whole case.")
+RULE = (
+    'Cases are operation histories (ParameterTable keyed/unkeyed vs dict/list model; RowCollector vs list-of-rows '
+    'model, list and array mode, with sort) drawn by Hypothesis as op lists, every (n<=40, ncols<=8, order, '
+    'list/dict) DataPlotGrid size enumerated completely plus random larger ones, and random lists of item lists '
+    'for DataCombination. After EVERY operation all public accessors are compared with the model. Non-trivial: '
+    'table history with a delete or overwrite followed by positional access; collector history with a sort over '
+    '>=3 rows or with ties in the sort column; grid with incomplete last row; combination of >=2 lists with >=2 '
+    'items each. Round 4: refused assignments (non-sequence values) must leave the table as it was; attribute '
+    'access of absent keys; abandoned and interleaved enumerations. Later rounds: constructor rows given as '
+    'dicts; exceptions raised by enumeration or sort are violations; unsigned and boolean columns. Distinct = '
+    'distinct canonical JSON of the whole case.'
+)
 ASSUMPTIONS = [
     "keys are non-empty identifier strings not shadowed by class attributes; values have as many entries as fields",
     "collector columns are type-homogeneous (int64-range ints, finite floats, NUL-free strings), as numpy storage requires",
